@@ -376,12 +376,16 @@ class Verifier:
                                            inputs=inputs, meta=dict(contract=cname, line=o.line, exc=o.exc, unexpected=True)))
             else:
                 raise Unsupported(f"stray {o.kind} outcome")
-        # converse: whenever the contract says E is raised, no normal return is possible
+        # converse: whenever the contract says E is raised, no normal return is possible (one obligation per return path)
+        rets = [o for o in ex.outcomes if o.kind == "return"]
         for exc, fn in c.raises.items():
-            cond = self.pred_node(ex, c.module, fn, values, p0)
-            rc = z3.Or(ret_conds) if ret_conds else z3.BoolVal(False)
-            obls.append(Obligation(f"{base}/exc-conv-{exc}", "exc-conv", list(ex.bg) + [pre, cond, rc],
-                                   inputs=inputs, meta=dict(contract=cname, exc=exc)))
+            for r_i, o in enumerate(rets):
+                cond = self.pred_node(ex, c.module, fn, values, Path(o.cond, None, None, o.heap))
+                sfx = f"#{r_i + 1}" if len(rets) > 1 else ""
+                obls.append(Obligation(f"{base}/exc-conv-{exc}{sfx}", "exc-conv", list(ex.bg) + list(o.cond) + [cond],
+                                       inputs=inputs, meta=dict(contract=cname, exc=exc)))
+            if not rets:
+                obls.append(Obligation(f"{base}/exc-conv-{exc}", "exc-conv", [z3.BoolVal(False)], inputs=inputs, meta=dict(contract=cname, exc=exc)))
         for j, (label, cond, goal) in enumerate(ex.side):
             obls.append(Obligation(f"{base}/{label}#{j}", "call-pre", list(ex.bg) + list(cond) + [z3.Not(goal)],
                                    inputs=inputs, meta=dict(contract=cname)))
